@@ -30,6 +30,9 @@ pub enum Tok {
     Probe(u8),
     /// ITS-deployed token addressed through the canonical entry point (its address was never registered as canonical)
     ItsDeployedViaCanonical,
+    /// the canonical id of a local asset was taken by a token deployed from a hub message *before* the asset was ever
+    /// registered; the request names the asset: the id is registered, and what is registered under it is what gets announced
+    CanonicalIdTakenByRemoteDeployment,
     /// never registered
     UnregisteredSalt,
     UnregisteredAsset,
@@ -117,6 +120,7 @@ fn tok() -> impl Strategy<Value = Tok> {
         1 => Just(Tok::ItsDeployedViaCanonical),
         1 => Just(Tok::UnregisteredSalt),
         1 => Just(Tok::UnregisteredAsset),
+        2 => Just(Tok::CanonicalIdTakenByRemoteDeployment),
     ]
 }
 
@@ -243,6 +247,20 @@ impl Property for C18 {
             Tok::UnregisteredAsset => {
                 registered = false;
                 token_addr = Some(w.new_asset());
+                canonical_entry = true;
+            }
+            Tok::CanonicalIdTakenByRemoteDeployment => {
+                let x = w.new_asset();
+                let zero = <Address as axelar_soroban_std::address::AddressExt>::zero(env);
+                let id = w.its.client.interchain_token_id(&zero, &w.its.client.canonical_token_deploy_salt(&x)).to_array();
+                w.inject(&id);
+                let (n, s, d) = (b"Remote Origin".to_vec(), b"RMO".to_vec(), 9u32);
+                let inner = AMsg::Deploy { token_id: id, name: n.clone(), symbol: s.clone(), decimals: word_u64(d as u64), minter: vec![] };
+                let payload = ItsWorld::receive_payload("ethereum", &inner);
+                w.approve_for_its(HUB_CHAIN, "remote-deploy-first", HUB_ADDR, &payload).map_err(|e| format!("setup: {}", e))?;
+                w.execute(HUB_CHAIN, "remote-deploy-first", HUB_ADDR, &payload).map_err(|e| format!("setup: {}", e))?;
+                meta = Some((n, s, d));
+                token_addr = Some(x);
                 canonical_entry = true;
             }
         }
